@@ -373,3 +373,34 @@ M.loop(P_FC + ':_DdvHelper.validator_validator_of_files', 0,
        invariant=lambda _i, self, validators:
        len(validators) == _i + count_prefix(self._files, _i, entry_has_matcher),
        modifies=dict(validators=MListOf(Any_), file_name='local', mb_matcher='local'))
+
+
+# ============================================================================== FILE-LIST: the validators of every part
+# The validator of an entry is the conjunction of the validator of its NAME (`_IsValidPosixPath`: not absolute, no `..`,
+# proved in C15_dirtrees.py) and of its maker; the validator of a FILE-LIST is made of the validators of all its entries,
+# in order.  (AndValidator runs every component: C03.)
+
+M.contract(P_FL + ':FileSpecificationDdv.__init__',
+           params=dict(self=Inst(file_list.FileSpecificationDdv), name=Str, maker=Iface(MakerDdvI)),
+           ensures={'the validator of an entry: the name validator of ITS name, then the validator of its maker':
+                        lambda self, name, maker:
+                        self.name == name and self.maker is maker
+                        and isinstance(self._validator, ddv_validators.AndValidator)
+                        and len(self._validator.validators) == 2
+                        and isinstance(self._validator.validators[0], file_list._IsValidPosixPath)
+                        and self._validator.validators[0].path_str == name
+                        and self._validator.validators[1] is maker.validator},
+           inline=True, raises_only=())
+
+M.contract(P_FL + ':_Ddv.__init__',
+           params=dict(self=Inst(file_list._Ddv), files=ListOf(SPEC_DDV)),
+           ensures={'the validator of a FILE-LIST: the validators of all entries, in order (one entry: its validator)':
+                        lambda self, files:
+                        self._files is files
+                        and (len(files) == 0
+                             or (self._validator is files[0]._validator if len(files) == 1 else
+                                 (isinstance(self._validator, ddv_validators.AndValidator)
+                                  and len(self._validator.validators) == len(files)
+                                  and forall_range(0, len(files), lambda k:
+                                 self._validator.validators[k] is files[k]._validator))))},
+           inline=True, raises_only=())
